@@ -177,6 +177,21 @@ func evalC04(c c04Case, o *Obs) error {
 					return err
 				}
 			}
+			// the same public key object derives again: other index, then the same index
+			j := (i + 1) & 0x7fffffff
+			if pj, err := n.Child(j); err == nil {
+				if rj, rerr := rn.child(j); rerr == nil {
+					if err := compareNode(pj, rj, ni, where+fmt.Sprintf(" public child %d (second derivation from the same object)", j)); err != nil {
+						return err
+					}
+				}
+			}
+			if pc2, err := n.Child(i); err != nil || pc2.String() != pc.String() {
+				return fmt.Errorf("%s: deriving public child %d twice from the same key gives %v, then %v (err %v)", where, i, pc, pc2, err)
+			}
+			if ck2, err := k.Child(i); err != nil || ck2.String() != ck.String() {
+				return fmt.Errorf("%s: deriving private child %d twice from the same key gives different keys (err %v)", where, i, err)
+			}
 			pubK, pubR = pc, pr
 		}
 		k, r = ck, cr
@@ -229,7 +244,7 @@ func genC04(t *rapid.T) c04Case {
 	}
 	switch rapid.IntRange(0, 19).Draw(t, "seed_cls") {
 	case 0: // illegal lengths
-		n := rapid.SampledFrom([]int{0, 1, 15, 65, 66, 80}).Draw(t, "badlen")
+		n := rapid.SampledFrom([]int{0, 1, 15, 65, 66, 80, 128, 255, 256, 257, 271, 272, 288, 320, 512, 528, 544, 1024, 1040}).Draw(t, "badlen")
 		c.Seed = genBytesN(t, "seed", n)
 		c.Tag = "illegal-seed"
 		return c
@@ -377,7 +392,7 @@ func TestC04(t *testing.T) {
 				}
 			}
 		}
-		kC04.Run(t, ev, perShard(pick(600, 60000)))
+		kC04.Run(t, ev, perShard(pick(600, 200000)))
 		ev.requireClasses("C04:illegal-seed-length", "C04:depth-255", "C04:hardened-step", "C04:normal-step",
 			"C04:hardened-step-after-leading-zero-scalar", "C04:hardened-step-after-two-leading-zero-bytes", "C04:setnet", "C04:net=simnet", "C04:seedlen=16", "C04:seedlen=64")
 	})
